@@ -1491,7 +1491,12 @@ func (sa *Application) tryReservedAllocate(headRoom *resources.Resource, nodeIte
 		}
 
 		// Do we need a specific node?
-		if ask.GetRequiredNode() != "" {
+		if ask.GetRequiredNode() == "" {
+			// the node could have been drained after it was reserved: only an ask that requires the node ignores that
+			if !reserve.node.IsSchedulable() {
+				continue
+			}
+		} else {
 			if !reserve.node.CanAllocate(ask.GetAllocatedResource()) && !ask.HasTriggeredPreemption() {
 				// try preemption and see if we can free up resource
 				preemptor := NewRequiredNodePreemptor(reserve.node, ask, sa)
